@@ -183,6 +183,10 @@ func genRef(r *Rand, p *Plan, tier string, focus string) {
 		p.Scen.Faulty = true
 		p.Scen.Stall = r.Chance(40)
 		p.Family += "-faulty"
+		if p.Scen.Stall && r.Chance(60) {
+			// a slow backend: the handler sits at a seam while the clock runs
+			p.Park = append(p.Park, PickOf(r, "keychain", "sink", "log:record", "log:accepting user", "log:detected user"))
+		}
 	}
 	nCli := 1 + r.Intn(up(3))
 	if focus == "C13" {
@@ -507,6 +511,10 @@ func genC14(r *Rand, p *Plan, tier string) {
 		idx++
 	}
 	addControl(20 + r.Intn(30))
+	if r.Chance(25) {
+		// many clients can exhaust file descriptors: Accept fails with a temporary error
+		p.Scen.Ctl = append(p.Scen.Ctl, Ctl{Kind: "accept-fault", Arg: PickOf(r, "temp", "temp", "plain"), NotBefore: r.Intn(25)})
+	}
 	p.Tape = r.Tape(1500)
 	p.MaxSteps = 5000
 }
@@ -547,6 +555,19 @@ func genC09(r *Rand, p *Plan, tier string) {
 				scripts = append(scripts, g.authorSess(adm.Scope, flags))
 			default:
 				scripts = append(scripts, g.acctSess(adm.Scope, flags, false))
+			}
+		}
+		if r.Chance(35) && len(scripts) >= 2 {
+			// a finished session's id is used again for a new session on the same connection
+			a, b := r.Intn(len(scripts)), r.Intn(len(scripts))
+			if a != b {
+				sid := scripts[a].Pkts[0].Session
+				for _, pk := range scripts[b].Pkts {
+					cp := *pk
+					cp.Session = sid
+					scripts[a].Pkts = append(scripts[a].Pkts, &cp)
+				}
+				scripts = append(scripts[:b:b], scripts[b+1:]...)
 			}
 		}
 		cs.Ops = Interleave(r, scripts, r.Chance(50))
@@ -753,6 +774,15 @@ func genC16e2e(r *Rand, p *Plan, tier string) {
 			p.Scen.Clients = append(p.Scen.Clients, cs)
 			idx++
 		}
+	}
+	if len(p.Scen.Ctl) >= 2 && r.Chance(30) {
+		// a burst of reloads while the loader is still busy with the first one
+		at := p.Scen.Ctl[0].NotBefore
+		for i := range p.Scen.Ctl {
+			p.Scen.Ctl[i].NotBefore = at
+		}
+		p.Park = append(p.Park, PickOf(r, "log:updated all providers", "log:processing secret config", "log:loaded user"))
+		p.Mode = "batch"
 	}
 	p.Tape = r.Tape(2000)
 	p.MaxSteps = 6000
